@@ -57,6 +57,7 @@ type world struct {
 func newWorld() *world {
 	e := env.NewE1(env.E1Options{Seed: drv.Seed(), Chains: []string{chain}, Powers: []int64{5, 3, 2, 1}})
 	e.AddLateValidator(e.Ctx, 2) // bonded, not in the snapshot
+	e.Consensus.LateInject(e.Evm)   // as app.go does
 	if err := e.Treasury.SetCommunityFundFee(e.Ctx, "0.01"); err != nil {
 		panic(err)
 	}
@@ -227,6 +228,20 @@ func mustEvm(e *env.E1, m ctypes.QueuedSignedMessageI) (*evmtypes.Message, bool)
 	return em, ok
 }
 
+func (r *run) assignees() map[int]string {
+	res := map[int]string{}
+	ms, err := r.w.e.Consensus.GetMessagesFromQueue(r.ctx, slcQueue, 0)
+	if err != nil {
+		panic(err)
+	}
+	for _, m := range ms {
+		if em, ok := mustEvm(r.w.e, m); ok {
+			res[int(m.GetId())] = em.Assignee
+		}
+	}
+	return res
+}
+
 func (r *run) curKey(v int) *ecdsa.PrivateKey {
 	ks := r.keys[v]
 	return ks[len(ks)-1]
@@ -343,6 +358,34 @@ func (r *run) step(s drv.Step) (string, map[string]any) {
 			r.keys[a.V] = append(r.keys[a.V], k)
 		}
 		return res, extra
+	case "Reassign":
+		// ReassignOrphanedMessages picks the new relayer by block time; try a few time offsets and keep the first one
+		// that really changes an assignee (it has no caller in the application, the keeper exports it)
+		before := r.assignees()
+		bt := r.ctx.BlockTime()
+		done := false
+		for k := 0; k < 5 && !done; k++ {
+			cctx, write := r.ctx.WithBlockTime(bt.Add(time.Duration(k) * time.Second)).CacheContext()
+			if err := e.Consensus.ReassignOrphanedMessages(cctx, -1); err != nil {
+				extra["err"] = err.Error()
+				return "fail", extra
+			}
+			saved := r.ctx
+			r.ctx = cctx
+			after := r.assignees()
+			r.ctx = saved
+			changed := false
+			for id, a := range after {
+				if before[id] != a {
+					changed = true
+				}
+			}
+			if changed || k == 4 {
+				write()
+				done = true
+			}
+		}
+		return "ok", extra
 	case "EndBlock":
 		func() {
 			defer func() {
